@@ -272,3 +272,25 @@ Proof.
     + apply (IH A (S p) Lg); auto. lia.
 Qed.
 
+(* compaction keeps at least one entry, and the follower loop never cuts into the compacted prefix: a log
+   longer than its base stays longer than its base *)
+Lemma append_entries_len_base : forall g b es l, b < llen l -> b < llen (append_entries g b es l).
+Proof.
+  induction es as [|e es IH]; intros l H; cbn [append_entries]; [exact H|].
+  destruct (N.ltb_spec (llen l) (eidx e)) as [Hlt|Hge].
+  - destruct (N.eqb (eidx e) (llen l + 1) || negb g); [|exact H].
+    apply IH. unfold llen in *. rewrite app_length. cbn [length]. lia.
+  - unfold lookup. destruct (N.leb_spec (eidx e) b) as [Hc|Hnc]; [apply IH; exact H|].
+    destruct (nth_entry l (eidx e)) as [x|]; [|apply IH; exact H].
+    destruct (N.eqb (eterm x) (eterm e)); [apply IH; exact H|].
+    apply IH. unfold llen in *. rewrite app_length, firstn_length. cbn [length]. lia.
+Qed.
+
+Lemma last_info_skipn (l : list entry) k : (k < length l)%nat -> last_info (skipn k l) = last_info l.
+Proof.
+  intros H. unfold last_info. rewrite <- (firstn_skipn k l) at 2. rewrite rev_app_distr.
+  destruct (rev (skipn k l)) as [|e r] eqn:E; [|reflexivity].
+  exfalso. assert (length (rev (skipn k l)) = 0%nat) by (rewrite E; reflexivity).
+  rewrite rev_length, skipn_length in H0. lia.
+Qed.
+
